@@ -356,3 +356,12 @@ Definition py_dedup {A} (eqb : A -> A -> bool) (l : list A) : list A :=
   fold_left (fun acc x => if existsb (fun y => eqb y x) acc then acc else acc ++ [x]) l [].
 Definition py_dict_get {K V} (eqb : K -> K -> bool) (d : list (K * V)) (k : K) : result V :=
   match find (fun p => eqb (fst p) k) d with Some p => Ok (snd p) | None => Err KeyError end.
+
+(* ---- field assignment on a Node object that only the assigning function can reach (tools/py2coq.py, assign_node_field):
+   n.left = v / n.right = v, and n.left.left = v, … through py_set_in_* (None.left = v is AttributeError) ---- *)
+Definition py_set_left (n v : node) : node := match n with Node d _ r => Node d (Some v) r end.
+Definition py_set_right (n v : node) : node := match n with Node d l _ => Node d l (Some v) end.
+Definition py_set_in_left (n : node) (f : node -> node) : result node :=
+  match n with Node d (Some l) r => Ok (Node d (Some (f l)) r) | Node _ None _ => Err AttributeError end.
+Definition py_set_in_right (n : node) (f : node -> node) : result node :=
+  match n with Node d l (Some r) => Ok (Node d l (Some (f r))) | Node _ _ None => Err AttributeError end.
